@@ -57,7 +57,9 @@ type Case struct {
 var (
 	hostileMethods = []string{"", "GET", "get", "G ET", "\x00", "OPTIONS", "TRACE", "HEAD", "CONNECT", "PRI", strings.Repeat("M", 5000), "*"}
 	hostilePaths   = []string{"", "*", "/", "//", "/%", "/{x}", "/a\x00b", "\xff\xfe", "/\xc3\x28", strings.Repeat("/a", 35000), "a", "**", " ", "/*", "*/"}
-	hostileHosts   = []string{"", "a.com", "A.COM:80", "[::1]:80", "a:b:c", "[", "]:", ":", "a.com:", "a.com:x", ":80", "[]", "[a.com]", "x.a.com", "7.b.com:8080", "\xff", "[", "]", "[[::1]]", "a.com:65536000000000000000"}
+	hostileHosts   = []string{"", "a.com", "A.COM:80", "[::1]:80", "a:b:c", "[", "]:", ":", "a.com:", "a.com:x", ":80", "[]", "[a.com]", "x.a.com", "7.b.com:8080", "\xff", "[", "]", "[[::1]]", "a.com:65536000000000000000",
+		// letters whose lower-case form has another length, in front of a port or inside brackets
+		"\u212a.com:80", "x.\u0130.a.com:8080", "[\u212a]:80", "\u023a.a.com:1", "A\u212a.COM", "[\u0130]", "\u1e9e.b.com:80", "\xff.a.com:80", "\u212a\u212a\u212a.c.com:"}
 	hostileAccept  = []string{"", "text/html", "application/json; version=v1", ";", "a/b; version", "\xff", "a/b;version=\"v2\"", "a/b; VERSION=v1", strings.Repeat("a/b;", 3000), "a/b; version=v1; version=v2",
 		// quoting at its edges: a lone quote as a value, a quoted semicolon, an empty quoted value, a dangling escape
 		"a/b; version=\"", "a/b; version=\";\"", "a/b; charset=\"; version=v1", "a/b; version=\"\"", "a/b; version=\"\\", "\"", "a/b; =", "a/b; version=;", "/; version=v1"}
